@@ -23,8 +23,20 @@ fixed_rows = "\n".join(f"| {f['property']} | {f.get('commit','')} | `{f['sig']}`
 srows = []
 for d in sorted(glob.glob(f'{R}/seeded/*/meta.json')):
     m = json.load(open(d)); name = os.path.basename(os.path.dirname(d))
-    srows.append(f"| {name} | {m.get('breaks_property','')} | {cell(m.get('summary',''), 170)} | {cell(m.get('needs',''), 170)} | {m.get('checks_run','')} | {cell(m.get('detection',''), 220)} |")
-seeded = "| id | property | change | needs | checks run | result |\n|----|----------|--------|-------|------------|--------|\n" + "\n".join(srows)
+    cur = ''
+    dj = os.path.join(os.path.dirname(d), 'detection.json')
+    if os.path.exists(dj):
+        dd = json.load(open(dj)); parts = []
+        for pid, c in dd.get('checks', {}).items():
+            if c.get('rc') == 1:
+                sg = ', '.join(list(c.get('sigs', {}))[:3]) or ('correspondence only' if 'correspondence' in c.get('kinds', []) else 'violation')
+                if c.get('no_failing_input_found'): sg += ' (no-failing-input-found)'
+                parts.append(f"{pid}: VIOLATION {sg}")
+            elif c.get('rc') == 0: parts.append(f"{pid}: not seen")
+            else: parts.append(f"{pid}: {c.get('summary','?')}")
+        cur = ('CAUGHT - ' if dd.get('caught') else 'MISSED - ') + '; '.join(parts) + f" [{dd.get('patch')}, /repo {dd.get('repo_head')}]"
+    srows.append(f"| {name} | {m.get('breaks_property','')} | {cell(m.get('summary',''), 170)} | {cell(m.get('needs',''), 170)} | {m.get('checks_run','')} | {cell(m.get('detection',''), 220)} | {cell(cur, 260)} |")
+seeded = "| id | property | change | needs | checks run | history | final sweep on the current tree |\n|----|----------|--------|-------|------------|---------|------|\n" + "\n".join(srows)
 prose = open(f'{R}/tools/report_prose.md').read()
 sec = prose.replace('{STATUS_TABLE}', status).replace('{FIXED_TABLE}', fixed_rows).replace('{OPEN_TABLE}', open_rows).replace('{SEEDED_TABLE}', seeded)
 d = open(f'{R}/DESIGN.md').read()
